@@ -4,6 +4,8 @@ package frugal
 // EncodedSize / EncodeObject / DecodeObject.
 
 import (
+	"unsafe"
+
 	"github.com/cloudwego/frugal/internal/vrt"
 )
 
@@ -15,6 +17,8 @@ type typeOps struct {
 	ToRef   func(p interface{}) *RVal        // *T -> tree
 	Deref   func(p interface{}) interface{}  // *T -> T (by value)
 	Fill    func(p interface{}, name string) // fill *T with symbolic contents
+	Prefill func(p interface{}, name string) // like Fill, but by-value struct fields are left in their fresh state
+	Walk    func(p interface{}, w *walker)   // visit every pointer / slice / string reachable from *T
 }
 
 const bufPad = 3
@@ -169,4 +173,180 @@ func bytesCore(ops *typeOps) {
 	vrt.Check(vrt.BytesEq(b, b), "C16 input untouched (M-frozen monitors stores)")
 	vrt.Freeze("buf", false)
 	vrt.Reach("end")
+}
+
+// ---- ownership walk (C06, C14) ----
+
+type extent struct {
+	lo, hi uintptr
+	what   string
+}
+
+type walker struct {
+	buf   []byte
+	exts  []extent
+	views []extent // nocopy views as offsets into buf
+}
+
+func (w *walker) bufRange() (uintptr, uintptr) {
+	if len(w.buf) == 0 {
+		return 0, 0
+	}
+	lo := uintptr(unsafe.Pointer(unsafe.SliceData(w.buf)))
+	return lo, lo + uintptr(cap(w.buf))
+}
+
+// region: one piece of memory the decoder created: [p, p+nbytes) aligned for its element type,
+// owned by this decode, typed for GC when it holds pointers, disjoint from every other piece
+// and from the input buffer.
+func (w *walker) region(p unsafe.Pointer, nbytes, align, elemSize int, hasPtr bool, what string, emptyOK bool) {
+	if p == nil {
+		return
+	}
+	a := uintptr(p)
+	if nbytes == 0 {
+		// empty slices may point to the shared zero-size sentinel
+		vrt.Check(a%uintptr(align) == 0 || emptyOK, "C06 aligned for its element type")
+		return
+	}
+	vrt.Check(a%uintptr(align) == 0, "C06 aligned for its element type")
+	vrt.Check(vrt.IsOwner(p, "dec+"), "C06 memory belongs to this decode")
+	vrt.Check(vrt.BlockOff(p)+uint64(nbytes) <= vrt.BlockSize(p) || !vrt.Symbolic(), "C06 extent lies inside its allocation")
+	if hasPtr {
+		vrt.Check(!vrt.BlockNoScan(p) || !vrt.Symbolic(), "C06 pointer-bearing memory is visible to the GC (typed allocation)")
+		es := vrt.BlockElemSize(p)
+		vrt.Check(es == 0 || es == uint64(elemSize) || !vrt.Symbolic(), "C06 typed allocation has the element type of its contents")
+	}
+	blo, bhi := w.bufRange()
+	vrt.Check(a+uintptr(nbytes) <= blo || a >= bhi, "C06 does not overlap the input buffer")
+	for _, e := range w.exts {
+		vrt.Check(a+uintptr(nbytes) <= e.lo || a >= e.hi, "C06 overlaps no other piece of decoded memory")
+	}
+	w.exts = append(w.exts, extent{a, a + uintptr(nbytes), what})
+}
+
+func (w *walker) str(s string, what string, nocopy bool) {
+	if len(s) == 0 {
+		p := unsafe.Pointer(unsafe.StringData(s))
+		blo, bhi := w.bufRange()
+		vrt.Check(p == nil || uintptr(p) < blo || uintptr(p) >= bhi, "C14 zero-length value does not reference the input buffer")
+		return
+	}
+	if nocopy {
+		w.view(unsafe.Pointer(unsafe.StringData(s)), len(s), len(s), what)
+		return
+	}
+	w.region(unsafe.Pointer(unsafe.StringData(s)), len(s), 1, 1, false, what, false)
+}
+
+func (w *walker) bin(b []byte, what string, nocopy bool) {
+	if b == nil {
+		return
+	}
+	if len(b) == 0 {
+		p := unsafe.Pointer(unsafe.SliceData(b))
+		blo, bhi := w.bufRange()
+		vrt.Check(uintptr(p) < blo || uintptr(p) >= bhi, "C14 zero-length value does not reference the input buffer")
+		return
+	}
+	if nocopy {
+		w.view(unsafe.Pointer(unsafe.SliceData(b)), len(b), cap(b), what)
+		return
+	}
+	w.region(unsafe.Pointer(unsafe.SliceData(b)), cap(b), 1, 1, false, what, false)
+}
+
+// view: a nocopy value must lie inside the input buffer with no spare capacity; that it is exactly the
+// value's bytes follows from the content comparison with the reference decoder plus C03's consumed length.
+func (w *walker) view(p unsafe.Pointer, n, c int, what string) {
+	blo, _ := w.bufRange()
+	a := uintptr(p)
+	vrt.Check(a >= blo && a+uintptr(n) <= blo+uintptr(len(w.buf)), "C14 nocopy value is a view of the input buffer")
+	vrt.Check(c == n, "C14 nocopy view has no spare capacity")
+	w.views = append(w.views, extent{a - blo, a - blo + uintptr(n), what})
+}
+
+// fixedShape >= 0 replaces every shape choice of the generated fill functions by min(fixedShape, n-1).
+var fixedShape = -1
+
+func pick(name string, n int) int {
+	if fixedShape >= 0 {
+		if fixedShape < n {
+			return fixedShape
+		}
+		return n - 1
+	}
+	return vrt.Choice(name, n)
+}
+
+func withBounds(sb, lb, mb int, f func()) {
+	s0, l0, m0 := boundS, boundL, boundM
+	boundS, boundL, boundM = sb, lb, mb
+	f()
+	boundS, boundL, boundM = s0, l0, m0
+}
+
+// decmsgCore: a well-formed message written under schema W (any field order, trailing bytes) is
+// decoded into a (possibly pre-filled) destination of type T: C03 C09 C10 C11 C14 C06.
+func decmsgCore(w, t *typeOps) {
+	vrt.SetOwner("user")
+	pm := w.NewZero()
+	w.Fill(pm, "m")
+	rv := w.ToRef(pm)
+	encOrder = vrt.Choice("order", vrt.Param("orders"))
+	msg := refEncodeStruct(w.St, rv, nil)
+	encOrder = 0
+	trail := vrt.Choice("trail", 2) * 2
+	vrt.SetOwner("buf")
+	buf := make([]byte, 0, len(msg)+trail)
+	buf = append(buf, msg...)
+	buf = append(buf, vrt.Bytes("trail", trail)...)
+	vrt.Observe("msg", buf)
+	vrt.SetOwner("user")
+	pw := t.New()
+	if vrt.Choice("prefill", 2) == 1 {
+		// every field pre-set: pointers non-nil, containers with one element, symbolic contents
+		fixedShape = 2
+		t.Prefill(pw, "dst")
+		fixedShape = -1
+	}
+	dst := t.ToRef(pw)
+	var d refDec
+	rn, want, rok := refDecodeStruct(t.St, buf, dst, &d, 1<<20)
+	vrt.Freeze("buf", true)
+	vrt.Freeze("user", true)
+	vrt.FreezePtr(unsafe.Pointer(reflectDataPtr(pw)), false) // the destination struct itself is written
+	vrt.SetOwner("dec")
+	vrt.Phase("decode")
+	n, err := DecodeObject(buf, pw)
+	vrt.Phase("")
+	vrt.Freeze("user", false)
+	vrt.Check((err == nil) == rok, "C03 a well-formed message decodes successfully (and only then)")
+	if rok && err == nil {
+		vrt.Check(rn == len(msg), "harness: reference consumed the whole message")
+		vrt.Check(n == rn, "C03 returns the number of bytes up to and including the top-level STOP")
+		if !d.ValueOpen {
+			got := t.ToRef(pw)
+			vrt.Check(refEqualStruct(t.St, want, got), "C03 every transmitted field is set to the transmitted value, every other field untouched")
+			vrt.Observe("got", refEncodeStruct(t.St, got, nil))
+		}
+		wk := &walker{buf: buf}
+		t.Walk(pw, wk)
+		vrt.Reach("ok")
+	} else if !rok && err != nil {
+		if d.Missing != "" {
+			vrt.Check(vrt.ErrClass(err) == 101, "C09 missing required field is an INVALID_DATA protocol error")
+			vrt.Check(vrt.ErrMsgContains(err, d.Missing), "C09 error names the missing required field")
+			vrt.Reach("missing")
+		}
+		vrt.Reach("err")
+	}
+	vrt.Freeze("buf", false)
+	vrt.Reach("end")
+}
+
+// reflectDataPtr: address of the struct a *T interface value points to.
+func reflectDataPtr(p interface{}) unsafe.Pointer {
+	type eface struct{ t, d unsafe.Pointer }
+	return (*eface)(unsafe.Pointer(&p)).d
 }
